@@ -44,7 +44,7 @@ PROPS = {
         "rule": "series: mixture of small-integer / uniform / wide-range / fitness-like values, ascending, descending or shuffled; non-trivial = non-empty and not ascending; "
                 "aggregates: non-trivial = at least 2 trials and 3 generations; distinct by (n, leading value, median) resp. (trials, generations, solved trials)",
         "assumptions": ["champions are non-nil (the record format has no presence marker and the library always sets one)", "fitness ties between champions admit any of the tied organisms"],
-        "expect_classes": {"concurrent": ["independent cases evaluated at the same time"], "series": ["empty series", "empty series that is not nil", "not ascending", "large common offset, small spread"], "aggregates": ["trial values that held another record before", "accessors called before the comparison", "experiment-level best organism located", "solved trial", "solved and unsolved trials", "trial without generations", "no trials", "generations sorted in place between the two passes", "record read into an experiment that held other winners and was asked about them"]},
+        "expect_classes": {"concurrent": ["independent cases evaluated at the same time"], "series": ["empty series", "empty series that is not nil", "not ascending", "large common offset, small spread"], "aggregates": ["trial values that held another record before", "accessors called before the comparison", "experiment-level best organism located", "solved trial", "solved and unsolved trials", "trial without generations", "no trials", "generations sorted in place between the two passes", "record with a modular champion (held in memory only)", "record read into an experiment that held other winners and was asked about them"]},
     },
     "C06": {
         "run": "^TestC06",
@@ -241,7 +241,7 @@ PROPS = {
         "level_note": "trusted: the arithmetic model (bounds, not a re-implementation of the carry loop); the per-species adjustment factor is only required to be a product of the documented penalty 0.01 and the age significance, divided by the species size - the ages at which they apply are not asserted",
         "rule": "G-epochs scenarios (fitness programs with at least one positive value incl. values of both signs, scales from 5e-324 to 1e305, DropOffAge 1-8, babies stolen 0..PopSize/2, population 4-40; one history in six repeats a cancelled turnover after a new evaluation), 0-19 ordinary epochs, then the terminal step; non-trivial = at least two species with different sizes or ages; distinct by (step, generation, #species, #sizes, #ages, size, stolen)",
         "assumptions": ["at least one positive fitness value (cases without are skipped and counted)", "sequential executor phases"],
-        "expect_classes": {"stepwise": ["terminal step A", "terminal step B", "terminal step C", "several species", "stagnation penalty active", "youth boost active", "species purged for a zero quota", "species that loses members before reproduction", "survival threshold keeps the whole species", "species with a zero quota did not reproduce", "babies stolen configured", "organism with a negative raw fitness", "turnover repeated after a cancelled attempt and a new evaluation", "mean adjusted fitness below 2^-900 (quotients formed from scaled values)"]},
+        "expect_classes": {"stepwise": ["terminal step A", "terminal step B", "terminal step C", "several species", "stagnation penalty active", "youth boost active", "species purged for a zero quota", "species that loses members before reproduction", "survival threshold keeps the whole species", "species with a zero quota did not reproduce", "babies stolen configured", "organism with a negative raw fitness", "turnover repeated after a cancelled attempt and a new evaluation", "terminal step D", "clone turnover: offspring attributed to the species that produced them", "mean adjusted fitness below 2^-900 (quotients formed from scaled values)"]},
     },
     "C16": {
         "run": "^TestC16",
